@@ -102,7 +102,7 @@ m("C13", "bk_wav.py", "[env.ZERO, env.ONE]", "[env.ONE, env.ZERO]", "C13.R4")
 m("C13", "bk_wav.py", 'ONE = translate_audio_levels("SSLLHHHHLLLL")', 'ONE = translate_audio_levels("SSLLHHHLLLLL")', "C13.R5")
 m("C13", "metacommands.py", 'ljust(16, b" ")', 'ljust(16, b"\\0")', "C13.R8")
 m("C13", "bk_wav.py", "            + env.PAUSE\n            + encode_data_bits(code, env)", "            + encode_data_bits(code, env)\n            + env.PAUSE", "C13.R3")
-m("C13", "_cli.py", 'if output_filename.lower().endswith(".bin"):', 'if output_filename.endswith(".bin"):', "C13.R7c")
+m("C13", "_cli.py", 'if output_filename.lower().endswith(".bin"):', 'if output_filename.endswith(".bin"):', "CLI")
 m("C13", "bk_wav.py", "    while result > 0xffff:\n        result = (result & 0xffff) + (result >> 16)\n    return result", "    return ((result & 0xffff) + (result >> 16)) & 0xffff", "C13.R6")
 m("C13", "bk_wav.py", "    while result > 0xffff:\n        result = (result & 0xffff) + (result >> 16)\n    return result", "    return ((result - 1) % 65535 + 1) if result else 0", None)   # equivalent closed form: must stay silent
 # ---- C14 / C15
@@ -129,7 +129,7 @@ m("C18", "compiler.py", "        for filename, labels in labels_by_file.items():
 m("C18", "types.py", "        for name in candidates:\n            if name in compiler.symbols:\n                return compiler.symbols[name]", "        for name in candidates:\n            if name in compiler.symbols:\n                reports.WARNING_CLASSES[name] = []\n                return compiler.symbols[name]", "G5.inv")
 m("C19", "compiler.py", "labels.sort(key=lambda item: (item[1], item[0]))", "labels.sort(key=lambda item: (item[0], item[1]))", "C19.text")
 m("C19", "compiler.py", 'oct(value)[2:].rjust(6, "0")', 'oct(value)[2:].rjust(5, "0")', "C19.text")
-m("C19", "_cli.py", 'lst_file += ".lst"', 'lst_file += ".txt"', "C19.path")
+m("C19", "_cli.py", 'lst_file += ".lst"', 'lst_file += ".txt"', "CLI")
 m("C19", "compiler.py", '            "format": self.emitted_files[0][2],\n            "path": self.emitted_files[0][3]', '            "format": file_format,\n            "path": filepath', "C19.path")
 # ---- negatives: behaviour-preserving edits every rule must stay silent on
 for p in ("C01", "C02", "C04", "C06", "C09"):
